@@ -318,12 +318,17 @@ Section Oracles.
   (** light.ValidateTrustLevel (uint64 arithmetic wraps) *)
   Definition valid_trust_level (n d : N) : bool :=
     negb (((n * 3) mod two64 <? d) || (d <? n) || (d =? 0)).
+  (** client_state.go:Validate (fix 73282cb): numerator and denominator must not exceed MaxInt64, because
+      CometBFT converts them to int64 when it tallies the trusted voting power *)
+  Definition trust_level_fits (n d : N) : bool :=
+    (Z.of_N n <=? max_int64)%Z && (Z.of_N d <=? max_int64)%Z.
 
   (** client_state.go:Validate; None = ParseChainID panic *)
   Definition validate_client (c : Client) : option bool :=
     if is_blank (c_chain c) then Some false
     else if (50 <? N.of_nat (length (c_chain c))) then Some false
     else if negb (valid_trust_level (c_tl_num c) (c_tl_den c)) then Some false
+    else if negb (trust_level_fits (c_tl_num c) (c_tl_den c)) then Some false
     else if (c_trusting c <=? 0)%Z then Some false
     else if (c_unbonding c <=? 0)%Z then Some false
     else if (c_drift c <=? 0)%Z then Some false
